@@ -587,9 +587,9 @@ or a list of these
 
     if estimate_key:
         warnings.warn("key estimation", stacklevel=2)
-        _, mode, fifths = analysis.estimate_key(note_array)
+        key_name = analysis.estimate_key(note_array)
         key_sigs_by_track = {}
-        global_key_sigs = [(0, fifths_mode_to_key_name(fifths, mode))]
+        global_key_sigs = [(0, key_name)]
 
     if assign_note_ids:
         note_ids = ["n{}".format(i) for i in range(len(note_array))]
